@@ -973,3 +973,39 @@ def prove(hyps, goal, boxes=None, seed=0, use_cvc5=False, sigma=True, timeout_ms
 def num_(e):
     from .sym import num
     return num(e)
+
+
+def resolve_ite(e, hyps, cache=None, timeout_ms=5000):
+    """resolve every if-then-else node of e whose condition is decided by the hypotheses (z3, both polarities);
+    undecided nodes are kept"""
+    from . import sym as _sym
+
+    cache = {} if cache is None else cache
+
+    def decide(c):
+        if c is sp.true:
+            return True
+        if c is sp.false:
+            return False
+        if c not in cache:
+            r = z3_prove(hyps, c, timeout_ms=timeout_ms)
+            if r.status == "proved":
+                cache[c] = True
+            else:
+                r = z3_prove(hyps, sp.Not(c), timeout_ms=timeout_ms)
+                cache[c] = False if r.status == "proved" else None
+        return cache[c]
+
+    def rec(x):
+        if isinstance(x, _sym.Ite):
+            d = decide(x.args[0])
+            if d is True:
+                return rec(x.args[1])
+            if d is False:
+                return rec(x.args[2])
+            return _sym.Ite(x.args[0], rec(x.args[1]), rec(x.args[2]))
+        if not isinstance(x, sp.Basic) or not x.args or not x.has(_sym.Ite):
+            return x
+        return x.func(*[rec(a) for a in x.args])
+
+    return rec(e)
